@@ -589,7 +589,7 @@ V("C14", "freq-criterion-ge", HBP, "    mask[mask] = np.mean(presence, axis=0) >
 V("C14", "bh-distance-donor-acceptor", HBP, "        distance_cutoff,\n        [1, 2],\n        [0, 1, 2],", "        distance_cutoff,\n        [0, 2],\n        [0, 1, 2],", "C14-R1", "baker_hubbard")
 V("C14", "bh-angle-at-donor", HBP, "        distance_cutoff,\n        [1, 2],\n        [0, 1, 2],", "        distance_cutoff,\n        [1, 2],\n        [2, 0, 1],", "C14-R1", "baker_hubbard")
 V("C14", "wn-angle-not-converted", HBP, "    cutoffs = distance_cutoff - angle_const * (angles * 180.0 / np.pi) ** 2", "    cutoffs = distance_cutoff - angle_const * angles ** 2", "C14-R1", "wernet_nilsson")
-V("C14", "prefilter-other-cutoff", HBP, "    prevalence = np.mean(distances < distance_cutoff, axis=0)", "    prevalence = np.mean(distances < 0.2, axis=0)", "C14-R1", "_compute_bounded_geometry")
+V("C14", "prefilter-other-cutoff", HBP, "    prevalence = np.mean(distances < distance_cutoff, axis=0)", "    prevalence = np.mean(distances < 0.2, axis=0)", "C14-R1", "baker_hubbard")
 V("C14", "acceptors-only-oxygen", HBP, '    acceptor_elements = frozenset(("O", "N"))', '    acceptor_elements = frozenset(("O",))', "C14-R2")
 V("C14", "acceptors-unfiltered", HBP, "acceptors = [a.index for a in topology.atoms if a.element.symbol in acceptor_elements and can_participate(a)]", "acceptors = [a.index for a in topology.atoms if a.element.symbol in acceptor_elements]", "C14-R2")
 V("C14", "self-bonds-kept", HBP, "    return bond_triplets[np.logical_not(self_bond_mask), :]", "    return bond_triplets", "C14-R2")
